@@ -630,7 +630,11 @@ def rule(prop):
     return ('random scheduling inputs: 1-10 (thorough 25) tasks in a random forest, links on leaves and on summaries, milestones, '
             'estimates/spent incl. spent > estimate and zero work, min_start, user-fixed starts/ends (forward), outside predecessors, '
             '0-3 resources with weekly / dict-weekly / dated / composed / bounded / never-available calendars, project bound at midnight and not, '
-            'clock before / on / after the bound, both balance settings; exact stream (values are multiples of 1/8, capacities with factors 2,3,5); '
+            'clock before / on / after the bound, both balance settings; one case in four in contention mode (one dominant resource, estimates that '
+            'are fractions of a day, release dates spread over a fortnight: interleaved ledger); times of day with seconds and microseconds; '
+            'calendars whose bounded part ends exactly at the midnight of a release day; tasks flagged milestone that have children; fixed ends '
+            'in the future; the scheduler object built under an earlier clock (30 %) and re-used after a successful or a failing calc (25 %); '
+            'exact stream (values are multiples of 1/8, capacities with factors 2,3,5); '
             'non-trivial = schedule with >= 2 usage rows and >= 2 member tasks; distinct = distinct inputs')
 
 
@@ -643,4 +647,10 @@ def distribution(prop, cases, outcomes):
         d['with_outside'] += any(not t['member'] for t in c['tasks'])
         d['with_fixed'] += any(t['start'] is not None or t['end'] is not None for t in c['tasks'] if t['member'])
         d['in_hypotheses'] += o.in_domain
+        d['summary_links'] += any(any(t['parent'] == a for t in c['tasks']) or any(t['parent'] == b for t in c['tasks']) for a, b in c['links'])
+        d['scheduler_reused'] = d.get('scheduler_reused', 0) + bool(c.get('prior'))
+        d['built_under_earlier_clock'] = d.get('built_under_earlier_clock', 0) + bool(c.get('ctorLead'))
+        d['sub_second_times'] = d.get('sub_second_times', 0) + any(x % 10**6 for x in [c['bound']] + c['clock'] +
+                                                                   [t[k] for t in c['tasks'] for k in ('min_start', 'start') if t[k] is not None])
+        d['milestone_summaries'] = d.get('milestone_summaries', 0) + any(t['ms'] and any(u['parent'] == i for u in c['tasks']) for i, t in enumerate(c['tasks']))
     return d
